@@ -249,6 +249,7 @@ type Cli struct {
 // Rep is one document instance (attachment session) of a client.
 type Rep struct {
 	D       *document.Document
+	Pre     bool // edited before its first attach (step "preedit"): the attach step uses this instance
 	Sess    int
 	DocID   types.ID
 	stopEvt chan struct{}
